@@ -159,7 +159,7 @@ impl Ctx {
             Some((announced, o.len(), back.is_some(), body_same))
         });
         match res {
-            Ok(Some((a, l, back, body_same))) => self.out.case("", &[], &rp, &format!("announced={a} written={l} reparses={back} body-same={body_same:?}"), Some(a == l && back && body_same != Some(false)), &format!("framed-{fname}-tag{tag}")),
+            Ok(Some((a, l, back, body_same))) => self.out.case("", &[], &rp, &format!("announced={a} written={l} reparses={back} body-same={body_same:?}"), Some(a == l && back && body_same == Some(true)), &format!("framed-{fname}-tag{tag}")),
             Ok(None) => self.out.case("", &[], &rp, "rejected", Some(true), &format!("framed-{fname}-tag{tag}-not-accepted")),
             Err(p) => self.out.case("", &[], &rp, &p, Some(false), "framed-panic"),
         }
